@@ -636,7 +636,9 @@ def run(ctx):
     run_cases(cases, res)
     import reuse
     reuse.datatype_reuse(res, random.Random(ctx["seed"] * 31 + 1919), 1500 if ctx["tier"] == "quick" else 60000)
-    res.notes.append("object re-use: to_bytes / unpack / to_bytes sequences on one instance compared with a fresh instance")
+    reuse.datatype_sequences(res, random.Random(ctx["seed"] * 37 + 1920), 1500 if ctx["tier"] == "quick" else 40000)
+    res.notes.append("object re-use: to_bytes / unpack / to_bytes sequences on one instance compared with a fresh instance, "
+                     "and operation sequences (construct / pack / unpack / size / value / next) compared with the Lean instance model after every step")
     res.extra["bit_fields_enumerated_completely"] = True
     return res
 
@@ -645,10 +647,11 @@ def replay(ctx):
     f = ctx["replay"].get("failure") or ctx["replay"].get("first_difference")
     res = Result("C19")
     res.rule = "replay of one recorded case"
-    if f["input"].get("t") in ("datatype_reuse", "bit_reuse"):
+    if f["input"].get("t") in ("datatype_reuse", "bit_reuse", "datatype_sequence"):
         import reuse
         for sd in range(100):
             reuse.datatype_reuse(res, random.Random(sd), 100)
+            reuse.datatype_sequences(res, random.Random(sd), 100)
         return res
     run_cases([f["input"]], res)
     res.sample(f["input"])
